@@ -45,3 +45,23 @@ Theorem C11_lost_wakeup_with_signal_refuted :
   exists tr, w_len (wrun false tr) = 0 /\ w_blocked (wrun false tr) <> nil.
 Proof. exact lost_wakeup_with_signal. Qed.
 Print Assumptions C11_lost_wakeup_with_signal_refuted.
+
+(* The loop of ares_queue_wait_empty() as the model [wait_empty] assumes it, read off the source
+   on every run (Gen/WaitFacts.v): the queue length is re-examined after EVERY wake-up (it is the
+   loop condition), the only other way out is the timeout, every wait is a condition wait on the
+   channel lock, and the status computed is what is returned. *)
+From CAres.Gen Require Import WaitFacts.
+Theorem C11_wait_empty_loop_shape :
+  wait_loop_condition = "ares_llist_len(channel->all_queries)"%string /\
+  wait_loop_exits = ("break if status == ARES_ETIMEOUT"%string :: nil) /\
+  wait_loop_waits = ("ares_thread_cond_timedwait"%string :: "ares_thread_cond_wait"%string :: nil) /\
+  wait_after_loop = "ares_thread_mutex_unlock(channel->lock); return status;"%string.
+Proof. vm_compute. repeat split; reflexivity. Qed.
+Print Assumptions C11_wait_empty_loop_shape.
+
+(* a waiter that took a notification for proof (no second look at the queue) can report success
+   with requests outstanding: the queue drained and filled again before it ran *)
+Theorem C11_wait_empty_without_recheck_refuted :
+  exists len obs, wait_empty_norecheck len obs = Some (true, 1).
+Proof. exists 1, (Woken 1 :: nil). reflexivity. Qed.
+Print Assumptions C11_wait_empty_without_recheck_refuted.
